@@ -41,6 +41,8 @@ Next == \/ sc.stage = 0 /\ \E sh \in Shapes, p1 \in Places : sc' = [stage |-> 1,
         \* the include file in another text encoding than the main file (the loader decodes every file on its own)
         \/ sc.stage = 0 /\ \E enc \in {"utf8bom", "utf16le_bom", "utf16be_bom", "utf32le_bom", "utf16le"} :
                sc' = [stage |-> 2, fam |-> "shape", sh |-> "flat1", f |-> ShapeOf("flat1", "same", "same", "same", TRUE, "/"), enc |-> enc]
+        \* a recoverable problem inside an include file: the diagnostic names that file and the line in it
+        \/ sc.stage = 0 /\ \E p1 \in Places, lvl \in {1, 2} : sc' = [stage |-> 2, fam |-> "diag", place |-> p1, level |-> lvl]
         \* one include file used by two elements (and by two include files: a diamond)
         \/ sc.stage = 0 /\ \E q \in BOOLEAN, dia \in BOOLEAN : sc' = [stage |-> 2, fam |-> "shared", quoted |-> q, diamond |-> dia]
         \* an include inside an IF_DATA block (described by the A2ML of the file, or by nothing)
